@@ -412,3 +412,152 @@ Section Front.
     destruct (amap_has _ _); inversion Ep; subst; cbn [ov_rh ov_nh]; auto.
   Qed.
 End Front.
+
+(* ---------------------------------------------------------------- _add / _delete on objects vs on values *)
+Section FrontEnd.
+  Variable c : cfg.
+
+  (* an object-level set operation on a stored rdataset, followed by a use of the result *)
+  Lemma RO_setop v zv f rh e rh' u :
+    RO v zv -> agree_below (ov_rh v) rh -> rwf rh -> (e < length rh)%nat ->
+    (forall x, items_wf x -> items_wf (f x)) ->
+    o_setop f rh e = Ok (rh', u) ->
+    RO (with_rh v rh') zv /\ rval rh' u = f (rval rh e) /\ (u < length rh')%nat /\ agree_below rh rh'.
+  Proof.
+    intros HR A W He Hf Es. destruct (setop_spec f rh e rh' u He Es) as (A2 & V & _ & B).
+    split; [|auto]. apply with_rh_RO; [exact HR|eapply agree_trans; eauto|eapply setop_rwf; eauto].
+  Qed.
+
+  Lemma RO_add rep args v zv :
+    RO v zv -> Forall arg_items_wf args ->
+    res_rel RO (o_add c rep args v) (hl_add (zstore c) c rep args zv).
+  Proof.
+    intros HR Fw. unfold o_add, hl_add. destruct args as [|a rest]; [reflexivity|].
+    destruct (add_parse a rest) as [[[n r] rest1]| |] eqn:Ep; cbn [bind]; try reflexivity.
+    pose proof (add_parse_wf a rest n r rest1 Fw Ep) as Wr.
+    destruct (negb _); [reflexivity|]. destruct (_ && _); [reflexivity|]. destruct rest1; [|reflexivity].
+    pose proof HR as (_ & _ & W0).
+    pose proof (ralloc_agree (ov_rh v) r false) as A1. pose proof (ralloc_val (ov_rh v) r false) as (V1 & _ & B1 & _).
+    pose proof (ralloc_rwf (ov_rh v) r false W0 Wr) as W1.
+    destruct (ralloc (ov_rh v) r false) as [rh1 rid]. cbn [fst snd] in *.
+    pose proof (with_rh_RO v zv rh1 HR A1 W1) as HR1.
+    destruct rep; cbn [bind fst snd].
+    - rewrite <- V1. apply (RO_put c (with_rh v rh1) zv n rid HR1 B1).
+    - cbn [s_get s_put zstore]. rewrite <- (RO_get c (with_rh v rh1) zv n (r_ty r) (r_cov r) HR1).
+      destruct (o_get_rdataset c (with_rh v rh1) n (r_ty r) (r_cov r)) as [ex| |] eqn:G; cbn [bind res_map]; try reflexivity.
+      destruct ex as [e|]; cbn [bind fst snd].
+      + pose proof (RO_get_bound c (with_rh v rh1) zv n _ _ e HR1 G) as Be. cbn [ov_rh with_rh] in Be |- *.
+        (* once the existing rdataset is available as a mutable object e' with the same value *)
+        assert (forall rh4 e', agree_below rh1 rh4 -> rwf rh4 -> (e' < length rh4)%nat -> rval rh4 e' = rval rh1 e ->
+                  res_rel RO (do y <- (do u <- o_union rh4 e' (rval rh4 rid); Ok (with_rh v (fst u), snd u));
+                              o_put_rdataset c (fst y) n (snd y))
+                             (put_rdataset c zv n (rds_union (rval rh1 e) r))) as K.
+        { intros rh4 e' A4 W4 B4 V4.
+          destruct (o_union rh4 e' (rval rh4 rid)) as [[rh5 u]| |] eqn:Eu; cbn [bind fst snd].
+          - assert (agree_below (ov_rh v) rh4) as A04 by (eapply agree_trans; eauto).
+            destruct (RO_setop v zv _ rh4 e' rh5 u HR A04 W4 B4 (fun x Hx => union_wf x _ Hx) Eu) as (HR5 & V5 & B5 & _).
+            assert (rval rh4 rid = r) as Vr by (destruct (rval_agree rh1 rh4 rid A4 B1) as [-> _]; exact V1).
+            rewrite V4, Vr in V5.
+            replace (rds_union (rval rh1 e) r) with (rval (ov_rh (with_rh v rh5)) u) by (cbn [ov_rh with_rh]; exact V5).
+            apply (RO_put c (with_rh v rh5) zv n u HR5 B5).
+          - exfalso. eapply setop_fails_same; eauto.
+          - exfalso. eapply setop_never_internal; eauto. }
+        destruct (rimm rh1 e) eqn:Ei.
+        * pose proof (ralloc_agree rh1 (mkRds (r_cls (rval rh1 e)) (r_ty (rval rh1 e)) (r_cov (rval rh1 e)) 0 []) false) as A2.
+          pose proof (ralloc_val rh1 (mkRds (r_cls (rval rh1 e)) (r_ty (rval rh1 e)) (r_cov (rval rh1 e)) 0 []) false) as (V2 & I2 & B2 & E2).
+          assert (rwf (fst (ralloc rh1 (mkRds (r_cls (rval rh1 e)) (r_ty (rval rh1 e)) (r_cov (rval rh1 e)) 0 []) false))) as W2.
+          { apply ralloc_rwf; [exact W1|]. split; cbn; [constructor|intros _; lia]. }
+          destruct (ralloc rh1 (mkRds (r_cls (rval rh1 e)) (r_ty (rval rh1 e)) (r_cov (rval rh1 e)) 0 []) false) as [rh2 t].
+          cbn [fst snd] in *.
+          destruct (o_inplace rh2 t (fun tv => fold_left rds_add (r_items (rval rh1 e)) (update_ttl tv (r_ttl (rval rh1 e))))) as [rh3| |] eqn:Ein;
+            cbn [bind].
+          -- destruct (inplace_val rh2 t _ _ B2 Ein) as (V3 & _ & L3 & _).
+             apply K.
+             ++ refine (inplace_agree rh1 rh2 t _ rh3 A2 _ Ein). rewrite E2. apply Nat.le_refl.
+             ++ eapply inplace_rwf; [exact W2|exact B2| |exact Ein]. intros x Hx. apply fold_add_wf, update_ttl_wf, Hx.
+             ++ rewrite L3. exact B2.
+             ++ rewrite V3, V2. apply copy_id. apply rwf_val; auto.
+          -- exfalso. unfold o_inplace in Ein. rewrite I2 in Ein. discriminate.
+          -- exfalso. unfold o_inplace in Ein. rewrite I2 in Ein. discriminate.
+        * cbn [bind]. apply K; auto using agree_refl.
+      + rewrite <- V1. apply (RO_put c (with_rh v rh1) zv n rid HR1 B1).
+  Qed.
+
+  Lemma RO_delete_common exact n ord rest v zv :
+    RO v zv -> match ord with Some r => items_wf r | None => True end ->
+    res_rel RO (o_delete_common c exact n ord rest v) (hl_delete_common (zstore c) exact n ord rest zv).
+  Proof.
+    intros HR Wo. unfold o_delete_common, hl_delete_common. destruct rest; [|reflexivity].
+    assert (res_rel RO (if exact then do on <- o_get_node c v n; match on with None => Lib eDeleteNotExact | Some _ => o_delete_node c v n end
+                        else o_delete_node c v n)
+                       (if exact then do ex <- s_exists (zstore c) zv n; if negb ex then Lib eDeleteNotExact else s_del_name (zstore c) zv n
+                        else s_del_name (zstore c) zv n)) as Kname.
+    { destruct exact; [|apply RO_del_name; exact HR]. cbn [s_exists s_del_name zstore].
+      rewrite <- (RO_node c v zv n HR). destruct (o_get_node c v n) as [on| |]; cbn [bind res_map]; try reflexivity.
+      destruct on; cbn [negb]; [apply RO_del_name; exact HR|reflexivity]. }
+    destruct ord as [[cls ty cov ttl items]|]; [|exact Kname]. destruct items as [|i items]; [exact Kname|].
+    destruct (negb _); [reflexivity|]. cbn [s_get s_put s_del_rds zstore].
+    rewrite <- (RO_get c v zv n ty cov HR).
+    destruct (o_get_rdataset c v n ty cov) as [ex| |] eqn:G; cbn [bind res_map]; try reflexivity.
+    destruct ex as [e|]; [|destruct exact; [reflexivity|exact HR]].
+    pose proof (RO_get_bound c v zv n ty cov e HR G) as Be. pose proof HR as (_ & _ & W0).
+    set (r := mkRds cls ty cov ttl (i :: items)) in *.
+    (* the exact test *)
+    destruct exact; cbn [andb bind].
+    - destruct (o_intersection (ov_rh v) e r) as [[rhw w]| |] eqn:Ew; cbn [bind fst snd].
+      + destruct (RO_setop v zv _ (ov_rh v) e rhw w HR (agree_refl _) W0 Be (fun x Hx => intersection_wf x r Hx) Ew) as (HRw & Vw & _ & Aw).
+        rewrite Vw. destruct (negb (rds_eqb (rds_intersection (rval (ov_rh v) e) r) r)); [reflexivity|]. cbn [bind].
+        assert (e < length rhw)%nat as Bew by (destruct Aw; lia).
+        destruct (o_difference rhw e r) as [[rhd d]| |] eqn:Ed; cbn [bind fst snd].
+        * assert (rwf rhw) as Ww by (destruct HRw as (_ & _ & X); exact X).
+          destruct (RO_setop v zv _ rhw e rhd d HR Aw Ww Bew (fun x Hx => difference_wf x r Hx) Ed) as (HRd & Vd & Bd & _).
+          destruct (rval_agree (ov_rh v) rhw e Aw Be) as [Ve _]. rewrite Vd, Ve.
+          destruct (r_items (rds_difference (rval (ov_rh v) e) r)) eqn:Di.
+          -- apply RO_del_rds; exact HRd.
+          -- replace (rds_difference (rval (ov_rh v) e) r) with (rval (ov_rh (with_rh v rhd)) d)
+               by (cbn [ov_rh with_rh]; rewrite Vd, Ve; reflexivity).
+             apply (RO_put c (with_rh v rhd) zv n d HRd Bd).
+        * exfalso. eapply setop_fails_same; eauto.
+        * exfalso. eapply setop_never_internal; eauto.
+      + exfalso. eapply (setop_fails_same _ (ov_rh v) e); eauto.
+      + exfalso. eapply (setop_never_internal _ (ov_rh v) e); eauto.
+    - destruct (o_difference (ov_rh v) e r) as [[rhd d]| |] eqn:Ed; cbn [bind fst snd].
+      + destruct (RO_setop v zv _ (ov_rh v) e rhd d HR (agree_refl _) W0 Be (fun x Hx => difference_wf x r Hx) Ed) as (HRd & Vd & Bd & _).
+        rewrite Vd.
+        destruct (r_items (rds_difference (rval (ov_rh v) e) r)) eqn:Di.
+        * apply RO_del_rds; exact HRd.
+        * replace (rds_difference (rval (ov_rh v) e) r) with (rval (ov_rh (with_rh v rhd)) d)
+            by (cbn [ov_rh with_rh]; rewrite Vd; reflexivity).
+          apply (RO_put c (with_rh v rhd) zv n d HRd Bd).
+      + exfalso. eapply (setop_fails_same _ (ov_rh v) e); eauto.
+      + exfalso. eapply (setop_never_internal _ (ov_rh v) e); eauto.
+  Qed.
+
+  Lemma RO_delete_bytype exact n t rest1 v zv :
+    RO v zv -> res_rel RO (o_delete_bytype c exact n t rest1 v) (hl_delete_bytype (zstore c) exact n t rest1 zv).
+  Proof.
+    intros HR. unfold o_delete_bytype, hl_delete_bytype. destruct (make_type t) as [ty| |]; cbn [bind]; try reflexivity.
+    destruct (match rest1 with [] => Ok (0, []) | c0 :: rest2 => do cv <- make_type c0; Ok (cv, rest2) end) as [[cov rest2]| |];
+      cbn [bind]; try reflexivity.
+    destruct rest2; [|reflexivity]. cbn [s_get s_del_rds zstore].
+    rewrite <- (RO_get c v zv n ty cov HR).
+    destruct (o_get_rdataset c v n ty cov) as [ex| |]; cbn [bind res_map]; try reflexivity.
+    destruct ex; [apply RO_del_rds; exact HR|destruct exact; [reflexivity|exact HR]].
+  Qed.
+
+  Lemma RO_delete exact args v zv :
+    RO v zv -> Forall arg_items_wf args ->
+    res_rel RO (o_delete c exact args v) (hl_delete (zstore c) exact args zv).
+  Proof.
+    intros HR Fw. unfold o_delete, hl_delete. destruct args as [|a rest]; [reflexivity|].
+    inversion Fw as [|? ? Fa Fr]; subst.
+    assert (forall n, res_rel RO (do y <- rdataset_from_args true rest; o_delete_common c exact n (fst y) (snd y) v)
+                                 (do y <- rdataset_from_args true rest; hl_delete_common (zstore c) exact n (fst y) (snd y) zv)) as Kc.
+    { intros n. destruct (rdataset_from_args true rest) as [[o r1]| |] eqn:E; cbn [bind fst snd]; try reflexivity.
+      apply RO_delete_common; [exact HR|]. apply (rdataset_from_args_wf true rest o r1 Fr E). }
+    destruct a; try reflexivity.
+    - destruct rest as [|t rest1]; [apply Kc|]. destruct (is_type_arg t); [apply RO_delete_bytype; exact HR|apply Kc].
+    - destruct rest as [|t rest1]; [apply Kc|]. destruct (is_type_arg t); [apply RO_delete_bytype; exact HR|apply Kc].
+    - apply RO_delete_common; [exact HR|exact Fa].
+  Qed.
+End FrontEnd.
